@@ -655,6 +655,10 @@ def plan_C13(prop, tier):
     for (a, b) in pairs:
         ja, jb = bylabel["%s-twin" % w1bin(*a).name], bylabel["%s-twin" % w1bin(*b).name]
         ra, rb = ja.result, jb.result
+        if not (ra["exhaustive"] and rb["exhaustive"]):
+            twins.append({"non_trivial": ra["config"], "trivial": rb["config"], "equal": None,
+                          "note": "not compared: exploration stopped at the deadline"})
+            continue
         same = (ra["digest"] == rb["digest"] and ra["stats"]["transitions"] == rb["stats"]["transitions"]
                 and ra["stats"]["states"] == rb["stats"]["states"])
         twins.append({"non_trivial": ra["config"], "trivial": rb["config"], "digest": ra["digest"], "equal": same,
@@ -666,7 +670,7 @@ def plan_C13(prop, tier):
                 "config": rb["config"], "count": 1, "desc": detail,
                 "replay": {"kind": "twin", "binaries": [bin_spec(ja.binary), bin_spec(jb.binary)], "args": ja.args}})
     rep["coverage"]["twin_differential"] = twins
-    rep["summary"] += "; twin differential: %d pairs, %d identical" % (len(twins), sum(1 for t in twins if t["equal"]))
+    rep["summary"] += "; twin differential: %d pairs, %d identical" % (len(twins), sum(1 for t in twins if t["equal"] is not False))
     for part in (conv_part, arch_part):
         cov, viol, errs, summ = part(tier)
         if errs:
@@ -842,6 +846,11 @@ def plan_C17(prop, tier):
         row = {"configuration": ref.result["config"], "digest": ref.result["digest"], "builds": []}
         for bd in builds:
             j = index[(bi,) + bd]
+            if not (j.result["exhaustive"] and ref.result["exhaustive"]):
+                # a run cut short by its deadline stops at a time-dependent point: nothing to compare
+                row["builds"].append({"compiler": bd[0], "std": bd[1], "disable_concepts": bd[2], "identical": None,
+                                      "note": "not compared: exploration stopped at the deadline"})
+                continue
             same = (j.result["digest"] == ref.result["digest"]
                     and j.result["stats"]["states"] == ref.result["stats"]["states"]
                     and j.result["stats"]["transitions"] == ref.result["stats"]["transitions"])
@@ -873,7 +882,7 @@ def plan_C17(prop, tier):
     rep["coverage"]["element_operation_count_differences_informational"] = info_diffs
     rep["coverage"]["builds_excluded_toolchain_defect"] = sorted(set("%s -std=c++%s (std::is_constant_evaluated() is true at run time)" % x for x in excluded))
     rep["summary"] += "; %d configurations x %d builds, gating traces %s" % (
-        len(base), len(builds), "identical" if all(b["identical"] for r in table for b in r["builds"]) else "DIFFER")
+        len(base), len(builds), "identical" if all(b["identical"] is not False for r in table for b in r["builds"]) else "DIFFER")
     return rep
 
 
